@@ -20,16 +20,16 @@ from checks.c07 import mc_and_replay
 SPEC = 'MPSTransform'
 INVARIANTS = ['Rep9', 'Divisible', 'Shape', 'InversionInvolution', 'InversionInvolutionPsi', 'SwapInvolution']
 PROPERTIES = ['RollRelabels', 'EnlargeKeeps', 'NormKept']
-ALL_OPS = {'apply_local_op', 'apply_product_op', 'apply_local_term', 'swap_sites', 'permute_sites', 'add', 'group_sites',
+ALL_OPS = {'apply_local_op', 'apply_local_op2', 'apply_product_op', 'apply_local_term', 'swap_sites', 'permute_sites', 'add', 'group_sites',
            'group_split', 'enlarge_chi', 'compress_svd', 'canonical_form', 'spatial_inversion', 'roll_mps_unit_cell',
            'enlarge_mps_unit_cell', 'extract_segment'}
 
 
-SEQ_OPS = {'apply_local_op', 'spatial_inversion', 'roll_mps_unit_cell', 'enlarge_mps_unit_cell', 'extract_segment',
-           'swap_sites', 'canonical_form', 'add', 'apply_local_term'}
+SEQ_OPS = {'apply_local_op', 'apply_local_op2', 'spatial_inversion', 'roll_mps_unit_cell', 'enlarge_mps_unit_cell', 'extract_segment',
+           'swap_sites', 'canonical_form'}
 
 
-ACTION_OPS = {'DoLocalOp': 'apply_local_op', 'DoProductOp': 'apply_product_op', 'DoLocalTerm': 'apply_local_term',
+ACTION_OPS = {'DoLocalOp': 'apply_local_op', 'DoLocalOp2': 'apply_local_op2', 'DoProductOp': 'apply_product_op', 'DoLocalTerm': 'apply_local_term',
               'DoSwap': 'swap_sites', 'DoPermute': 'permute_sites', 'DoAdd': 'add', 'DoGroup': 'group_sites',
               'DoGroupSplit': 'group_split', 'DoEnlargeChi': 'enlarge_chi', 'DoCompress': 'compress_svd', 'DoCanon': 'canonical_form',
               'DoInversion': 'spatial_inversion', 'DoRoll': 'roll_mps_unit_cell', 'DoEnlarge': 'enlarge_mps_unit_cell',
@@ -59,6 +59,15 @@ def h_local_op(rp, l, o):
         rp.jw_seen = True
     hm.quiet(rp.psi.apply_local_op, l['i'], l['name'], unitary=uni, renormalize=l['renormalize'], understood_infinite=True)
     return dict(sig=sig)
+
+
+def h_local_op2(rp, l, o):
+    from checks.c08 import two_site_op
+    psi = rp.psi
+    i = l['i']
+    op = two_site_op(psi.sites[i], psi.sites[i + 1], l['n1'], l['n2'])
+    hm.quiet(psi.apply_local_op, i, op, unitary=None, renormalize=l['renormalize'])
+    return dict(sig=dict(names='%s %s' % (l['n1'], l['n2']), canon=l['canon']))
 
 
 def h_product_op(rp, l, o):
@@ -167,7 +176,7 @@ def h_extract(rp, l, o):
 
 HANDLERS = dict(hm.BASE_HANDLERS)
 HANDLERS.update({
-    'apply_local_op': h_local_op, 'apply_product_op': h_product_op, 'apply_local_term': h_local_term,
+    'apply_local_op': h_local_op, 'apply_local_op2': h_local_op2, 'apply_product_op': h_product_op, 'apply_local_term': h_local_term,
     'swap_sites': h_swap, 'permute_sites': h_permute, 'add': h_add, 'group_sites': h_group, 'group_split': h_group_split,
     'enlarge_chi': h_enlarge_chi, 'compress_svd': h_compress, 'canonical_form9': h_canon9,
     'spatial_inversion': h_inversion, 'roll_mps_unit_cell': h_roll, 'enlarge_mps_unit_cell': h_enlarge,
@@ -197,8 +206,8 @@ def check(ctx):
     def run(name, sample, maxl, maxconv, ops=ALL_OPS, bcs=('finite', 'segment', 'infinite'), need=()):
         """run MC + replay; if the seeded sample left one of the actions in `need` uncovered, densify the sample"""
         total = 0
-        for k in range(3):
-            total += mc_and_replay(ctx, name if k == 0 else '%s+%d' % (name, k), cfg(seed, max(2, sample // (5 ** k)), maxl, maxconv, ops, bcs),
+        for k in range(5):
+            total += mc_and_replay(ctx, name if k == 0 else '%s+%d' % (name, k), cfg(seed, max(2, sample // (2 ** k)), maxl, maxconv, ops, bcs),
                                    spec=SPEC, handlers=HANDLERS, leaf=leaf(maxconv))
             missing = [a for a in need if ctx.coverage_actions.get(a, (0, 0))[0] == 0]
             if total > 0 and not missing:
@@ -208,7 +217,7 @@ def check(ctx):
     n1 = run('wide', 307 if quick else 29, 4, 1, need=[a for a in ACTION_OPS if a not in ('DoRoll', 'DoEnlarge')])
     n0 = run('infinite', 53 if quick else 7, 3, 1 if quick else 2, ops=INF_OPS, bcs=('infinite',),
              need=['DoRoll', 'DoEnlarge', 'DoInversion', 'DoExtract'])
-    n2 = run('seq2', 1201 if quick else 601, 3, 2, ops=SEQ_OPS if quick else ALL_OPS)
+    n2 = run('seq2', 4001 if quick else 601, 3, 2, ops=SEQ_OPS if quick else ALL_OPS)
     n3 = 0
     if not quick:
         n3 = run('seq3', 9973, 3, 3, ops=SEQ3_OPS)
